@@ -64,9 +64,50 @@ class Obj:
         return '<{} object>'.format(self.cls.name)
 
 
+class CondDesc(tuple):
+    """description of a symbolic decision that also carries the value that
+    was tested (rules can reason under the path condition)"""
+
+    def __new__(cls, desc, obj=None):
+        t = super().__new__(cls, desc)
+        t.obj = obj
+        return t
+
+
+class StubClass:
+    """stand-in for a class the source model has no definition of (classes
+    made with type(...) at import time): only identity and isinstance"""
+
+    def __init__(self, name, bases=()):
+        self.name = name
+        self.qual = name
+        self.bases = tuple(bases)
+        self.methods = {}
+
+    def mro(self):
+        out = [self]
+        for b in self.bases:
+            for x in b.mro():
+                if x not in out:
+                    out.append(x)
+        return out
+
+    def __repr__(self):
+        return '<stub class {}>'.format(self.name)
+
+
 class ClassVal:
     def __init__(self, info):
         self.info = info
+
+    def __eq__(self, o):
+        return isinstance(o, ClassVal) and o.info is self.info
+
+    def __ne__(self, o):
+        return not self.__eq__(o)
+
+    def __hash__(self):
+        return hash(id(self.info))
 
     def __repr__(self):
         return '<class {}>'.format(self.info.qual)
@@ -474,7 +515,7 @@ class Cx:
             c = v.as_const()
             if c is not None:
                 return bool(c)
-            return self.decide(('truth', repr(v)))
+            return self.decide(CondDesc(('truth', repr(v)), v))
         if isinstance(v, Seq):
             return bool(v.items)
         if isinstance(v, (HexCh, SymCh)):
@@ -494,6 +535,29 @@ class Cx:
         if isinstance(op, (ast.In, ast.NotIn)):
             r = self.contains(b, a)
             return r if isinstance(op, ast.In) else not r
+        if isinstance(a, Obj) or isinstance(b, Obj):
+            # user-defined comparison methods
+            dunder = {ast.Eq: '__eq__', ast.NotEq: '__ne__', ast.Lt: '__lt__',
+                      ast.LtE: '__le__', ast.Gt: '__gt__', ast.GtE: '__ge__'}
+            nm = dunder[type(op)]
+            for (x, y, n2) in ((a, b, nm), (b, a, {
+                    '__lt__': '__gt__', '__gt__': '__lt__',
+                    '__le__': '__ge__', '__ge__': '__le__'}.get(nm, nm))):
+                if isinstance(x, Obj) and not isinstance(x.cls, StubClass):
+                    m = self.model.lookup_method(x.cls, n2)
+                    if m is not None:
+                        return self.truth(self.call_function(
+                            m, [y], {}, bound=x))
+                    if n2 == '__ne__':
+                        m = self.model.lookup_method(x.cls, '__eq__')
+                        if m is not None:
+                            return not self.truth(self.call_function(
+                                m, [y], {}, bound=x))
+            if isinstance(op, ast.Eq):
+                return a is b
+            if isinstance(op, ast.NotEq):
+                return a is not b
+            raise CxError('ordering of objects without comparison methods')
         if isinstance(a, BV) or isinstance(b, BV):
             return self.cmp_sym(op, a, b)
         if isinstance(a, (SymCp, SymSel, SymDictVal)) or \
@@ -610,6 +674,15 @@ class Cx:
             if is_sym(x):
                 raise CxError('symbolic dictionary key')
             return x in coll
+        if isinstance(coll, range) and isinstance(x, BV) and \
+                x.as_const() is None and coll.step == 1:
+            # every value of the bit vector lies in the range / none does
+            if all(c is not None for c in x.cells):
+                hi = (1 << max(x.width, 1)) - 1
+                if coll.start <= 0 and hi < coll.stop:
+                    return True
+                if coll.stop <= 0 or coll.start > hi:
+                    return False
         its = self.items(coll)
         if isinstance(coll, (str, bytes)) and not is_sym(x) and \
                 not isinstance(x, Seq):
@@ -904,6 +977,11 @@ class Cx:
         if isinstance(v, Obj):
             if name in v.attrs:
                 return v.attrs[name]
+            if name == '__class__':
+                return v.cls if isinstance(v.cls, StubClass) \
+                    else ClassVal(v.cls)
+            if isinstance(v.cls, StubClass):
+                raise PyRaise('AttributeError', (name,))
             m = self.model.lookup_method(v.cls, name)
             if m is not None:
                 if m.is_classmethod:
@@ -988,7 +1066,11 @@ class Cx:
                 return
             self.assign(st.target, self.binop(st.op, cur, rhs), fr)
         elif isinstance(st, ast.If):
-            if self.truth(self.ev(st.test, fr)):
+            t = self.ev(st.test, fr)
+            if isinstance(t, BV) and t.as_const() is None and \
+                    self._mergeable(st) and self._merge_if(st, t, fr):
+                return
+            if self.truth(t):
                 self.block(st.body, fr)
             else:
                 self.block(st.orelse, fr)
@@ -1375,12 +1457,148 @@ class Cx:
             return self.ev(e.body, fr)
         return self.ev(e.orelse, fr)
 
+    def _mergeable(self, st):
+        """both branches only (re)bind locals / store into local sequences
+        from call-free expressions: they can be run one after the other and
+        the results joined bit by bit (if-conversion) instead of forking"""
+        def simple_target(t):
+            if isinstance(t, ast.Name):
+                return True
+            if isinstance(t, (ast.Tuple, ast.List)):
+                return all(simple_target(x) for x in t.elts)
+            if isinstance(t, ast.Subscript):
+                return isinstance(t.value, ast.Name) and \
+                    self._simple_value(t.slice)
+            return False
+        for b in list(st.body) + list(st.orelse):
+            if isinstance(b, ast.Pass):
+                continue
+            if isinstance(b, ast.Assign):
+                if not all(simple_target(t) for t in b.targets) or \
+                        not self._simple_value(b.value):
+                    return False
+            elif isinstance(b, ast.AugAssign):
+                if not simple_target(b.target) or \
+                        not self._simple_value(b.value):
+                    return False
+            elif isinstance(b, ast.Assert):
+                if not self._simple_value(b.test):
+                    return False
+            else:
+                return False
+        return True
+
+    def _merge_if(self, st, t, fr):
+        from .symx import c_ite
+        env0 = dict(fr.env)
+        tracked = {}
+        for v in fr.env.values():
+            if isinstance(v, Seq):
+                tracked[id(v)] = (v, list(v.items))
+            elif isinstance(v, list):
+                tracked[id(v)] = (v, list(v))
+        dstate = (len(self.decisions), self.dpos, len(self.conds),
+                  len(self.assumed))
+
+        def restore():
+            fr.env.clear()
+            fr.env.update(env0)
+            for (obj, items) in tracked.values():
+                if isinstance(obj, Seq):
+                    obj.items[:] = items
+                else:
+                    obj[:] = items
+
+        def contents():
+            return {k: list(o.items if isinstance(o, Seq) else o)
+                    for k, (o, _i) in tracked.items()}
+
+        def give_up():
+            restore()
+            del self.decisions[dstate[0]:]
+            self.dpos = dstate[1]
+            del self.conds[dstate[2]:]
+            del self.assumed[dstate[3]:]
+            return False
+        try:
+            self.block(st.body, fr)
+            env_a, seq_a = dict(fr.env), contents()
+            restore()
+            self.block(st.orelse, fr)
+            env_b, seq_b = dict(fr.env), contents()
+            restore()
+        except (AnalysisError, PyRaise, _Brk, _Cont, _Ret):
+            return give_up()
+        if self.dpos != dstate[1]:
+            return give_up()
+        if set(env_a) != set(env_b):
+            # a local bound in one branch only: harmless when nothing
+            # outside the `if` reads it
+            one_sided = set(env_a) ^ set(env_b)
+            inside = {id(x) for x in ast.walk(st)}
+            fnode = getattr(fr.func, 'node', None)
+            if fnode is None or any(
+                    isinstance(x, ast.Name) and x.id in one_sided and
+                    isinstance(x.ctx, ast.Load) and id(x) not in inside
+                    for x in ast.walk(fnode)):
+                return give_up()
+            for k in one_sided:
+                env_a.pop(k, None)
+                env_b.pop(k, None)
+        cond = t.any_set()
+        if cond is None:
+            return give_up()
+
+        def join(a, b):
+            if a is b:
+                return a
+            if isinstance(a, (int, BV)) and isinstance(b, (int, BV)) and \
+                    not isinstance(a, bool) and not isinstance(b, bool) and \
+                    (isinstance(a, BV) or a >= 0) and \
+                    (isinstance(b, BV) or b >= 0):
+                if not isinstance(a, BV) and not isinstance(b, BV) and a == b:
+                    return a
+                A, B = _bv(a), _bv(b)
+                n = max(len(A.cells), len(B.cells))
+                cells = [c_ite(cond, A.cell(k), B.cell(k)) for k in range(n)]
+                if any(c is None for c in cells):
+                    raise CxError('join too wide')
+                return _norm(BV(cells).trimmed())
+            if type(a) is type(b) and isinstance(a, (bool, str, bytes,
+                                                     type(None))) and a == b:
+                return a
+            raise CxError('join of unlike values')
+        try:
+            env_m = {k: join(env_a[k], env_b[k]) for k in env_a}
+            seq_m = {}
+            for k in tracked:
+                if len(seq_a[k]) != len(seq_b[k]):
+                    raise CxError('join of sequences of different length')
+                seq_m[k] = [join(x, y) for x, y in zip(seq_a[k], seq_b[k])]
+        except CxError:
+            return give_up()
+        fr.env.clear()
+        fr.env.update(env_m)
+        for k, (obj, _i) in tracked.items():
+            if isinstance(obj, Seq):
+                obj.items[:] = seq_m[k]
+            else:
+                obj[:] = seq_m[k]
+        return True
+
     @staticmethod
     def _simple_value(e):
         """no calls, no side effects: safe to evaluate both branches"""
-        return not any(isinstance(x, (ast.Call, ast.Yield, ast.YieldFrom,
-                                      ast.NamedExpr, ast.Await))
-                       for x in ast.walk(e))
+        for x in ast.walk(e):
+            if isinstance(x, (ast.Yield, ast.YieldFrom, ast.NamedExpr,
+                              ast.Await)):
+                return False
+            if isinstance(x, ast.Call) and not (
+                    isinstance(x.func, ast.Name) and
+                    x.func.id in ('range', 'len', 'min', 'max', 'abs',
+                                  'bool') and not x.keywords):
+                return False
+        return True
 
     def e_BoolOp(self, e, fr):
         v = None
@@ -2150,7 +2368,7 @@ def call_ext(cx, name, args, kw):
     if n == 'type':
         v = args[0]
         if isinstance(v, Obj):
-            return ClassVal(v.cls)
+            return v.cls if isinstance(v.cls, StubClass) else ClassVal(v.cls)
         k = cx.kind_of(v)
         if k:
             return Ext(k)
@@ -2243,11 +2461,21 @@ def call_ext(cx, name, args, kw):
 def isinstance_(cx, v, t):
     if isinstance(t, tuple):
         return any(isinstance_(cx, v, x) for x in t)
+    if isinstance(t, StubClass):
+        return isinstance(v, Obj) and isinstance(v.cls, StubClass) and \
+            t in v.cls.mro()
     if isinstance(t, ClassVal):
+        if isinstance(v, Obj) and isinstance(v.cls, StubClass):
+            return False
         return isinstance(v, Obj) and t.info in cx.model.mro(v.cls)
     if isinstance(t, Ext):
         k = cx.kind_of(v)
         nm = t.name
+        if nm == 'type':
+            return isinstance(v, (ClassVal, StubClass)) or (
+                isinstance(v, Ext) and v.name in (
+                    'int', 'str', 'bytes', 'bytearray', 'list', 'tuple',
+                    'dict', 'set', 'bool', 'float', 'object', 'type'))
         if nm in ('bytes', 'bytearray', 'str', 'list', 'tuple'):
             return k == nm
         if nm == 'int':
